@@ -13,7 +13,7 @@ EXTENDS Integers, Sequences, FiniteSets, TLC, Json
 
 CONSTANTS Depth
 Params == {"re", "toc", "mach", "cl", "klam", "sweep", "nx", "ny"}
-Levels == [re |-> 3, toc |-> 4, mach |-> 5, cl |-> 3, klam |-> 4, sweep |-> 4, nx |-> 3, ny |-> 3]
+Levels == [re |-> 3, toc |-> 4, mach |-> 5, cl |-> 5, klam |-> 4, sweep |-> 4, nx |-> 3, ny |-> 3]
 \* expected change of each estimate when the parameter goes up one level (all else equal):
 \*   "dec" strictly decreases, "inc" strictly increases, "nondec" never decreases, "same" unchanged (to round-off), "any" unspecified
 Dir == [CDv |-> [re |-> "dec", toc |-> "inc", mach |-> "any", cl |-> "same", klam |-> "any", sweep |-> "any", nx |-> "same", ny |-> "same"],
